@@ -45,7 +45,7 @@ type elemKit[T comparable] struct {
 
 type pureStats struct {
 	calls, spareArgCalls, sharedArgCalls, valuesMade, spareValues, maxPool, checks int64
-	perOp                                                                         map[string]int64
+	perOp                                                                          map[string]int64
 }
 
 type history[T comparable] struct {
